@@ -39,10 +39,11 @@ struct ghost {
 
     /* extension queries ('X' lines built by iauth_x_query) */
     unsigned queries;
-    const char *query_server[4];
-    const char *query_routing[4];
-    char query_verb[4];       /* 'C'HECK, 'L'OGIN, '2' LOGIN2, 'M'ORE */
-    const void *query_arg[4][6];
+    const char *query_server[8];
+    const char *query_routing[8];
+    char query_verb[8];       /* 'C'HECK, 'L'OGIN, '2' LOGIN2, 'M'ORE */
+    const void *query_arg[8][6];
+    char query_user[8][12];   /* content of the user-name argument at the time of the call */
 
     /* acceptance gate */
     unsigned gate_evals;      /* calls of iauth_check_request(req) */
